@@ -74,6 +74,10 @@ def templates(tier, seed):
                 for tag in ("g", "symbol"):
                     if tag == "symbol" and where.startswith("inline"):
                         continue
+                    # placement that needs the template's size is asserted only where that size is known when the template is
+                    # reused (template complete and rendered before its use); the property itself speaks of x/y only
+                    if place in ("cxy", "x2y2", "xy-loc-br") and where not in ("inline-before", "defs-before"):
+                        continue
                     tds.append(dict(fam="groupfixed", where=where, place=place, xf=xf, tag=tag))
     for how in ("global-var", "g-attr", "outer-reuse", "none"):
         for tgt in ("text", "class"):
@@ -120,7 +124,7 @@ def build(td, wrong=False):
             return compare_outputs(Out(r.docs[0]["output"]), Out(r.docs[1]["output"]), wrong=wrong)
         return Template("specs-hidden", [d0, d1], vars_, check_h, family="specs", role="C18/specs", cap=4)
     reuse_doc, twin_doc = [], []
-    assume = []
+    assume = None
     if fam == "shape":
         tmpl, twinfn = SHAPES[td["shape"]]
         head = f"<specs>{tmpl}</specs>"
@@ -216,18 +220,18 @@ def build(td, wrong=False):
         a, b = f"[[{kp}]]", f"[[{kp + 1}]]"
         # the content box is (0,0)-(max(W,1), max(H,1)): sizes are kept >= 1 through the assumption below
         place = td["place"]
-        ra, tr = {"xy-attrs": (f' x="{a}" y="{b}"', (a, b)), "x": (f' x="{a}"', (a, "0")), "none": ("", None),
-                  "cxy": (f' cxy="{a} {b}"', (f"{{{{{a} - {W} / 2}}}}", f"{{{{{b} - {H} / 2}}}}")),
-                  "x2y2": (f' x2="{a}" y2="{b}"', (f"{{{{{a} - {W}}}}}", f"{{{{{b} - {H}}}}}")),
-                  "xy-loc-br": (f' xy="{a} {b}" xy-loc="br"', (f"{{{{{a} - {W}}}}}", f"{{{{{b} - {H}}}}}"))}[place]
         xf = {"none": "", "rotate": "rotate(30)", "scale": "scale(2)"}[td["xf"]]
+        va, vb_, vW, vH = f"v{kp}", f"v{kp + 1}", f"v{kw}", f"v{kw + 1}"
+        half = lambda t: mul(num(Fraction(1, 2)), t)
+        ra, tr = {"xy-attrs": (f' x="{a}" y="{b}"', (va, vb_)), "x": (f' x="{a}"', (va, "0.0")), "none": ("", None),
+                  "cxy": (f' cxy="{a} {b}"', (minus(va, half(vW)), minus(vb_, half(vH)))),
+                  "x2y2": (f' x2="{a}" y2="{b}"', (minus(va, vW), minus(vb_, vH))),
+                  "xy-loc-br": (f' xy="{a} {b}" xy-loc="br"', (minus(va, vW), minus(vb_, vH)))}[place]
+
         rx = f' transform="{xf}"' if xf else ""
         use = f'<reuse id="i0" href="#t"{rx}{ra}/>'
-        parts = [xf] if xf else []
-        if tr is not None:
-            parts.append(f"translate({tr[0]}, {tr[1]})")
-        tx = f' transform="{" ".join(parts)}"' if parts else ""
-        twin = f'<g id="i0"{tx} class="t">{body}</g>'
+        gf_expect = (xf, tr)
+        twin = f'<g id="i0" class="t">{body}</g>'
         where = td["where"]
         wrapped = {"inline-before": tmpl, "inline-after": tmpl, "specs": f"<specs>{tmpl}</specs>", "defs-before": f"<defs>{tmpl}</defs>"}[where]
         twrapped = "" if where == "specs" else wrapped
@@ -236,7 +240,7 @@ def build(td, wrong=False):
         else:
             d0, d1 = f"<svg>{wrapped}{use}</svg>", f"<svg>{twrapped}{twin}</svg>"
         inst_vars.append(list(range(kw, len(vars_))))
-        assume = [ge(f"v{kw}", "1.0"), ge(f"v{kw + 1}", "1.0")]
+        assume = and_(ge(f"v{kw}", "1.0"), ge(f"v{kw + 1}", "1.0"))
     elif fam == "empty-binding":
         # a binding to the empty string is a binding: it hides any outer variable of the same name
         kw = alloc([(6, *S), (4, *S)])
@@ -294,7 +298,8 @@ def build(td, wrong=False):
 
     def check(r):
         if r.docs[1]["status"] != "ok":
-            return [Obl("hand-written-document-ok", PASS, ground=True, note="the inlined twin is rejected: " + r.docs[1]["msg"][:100])]
+            # the hand-written twin uses only plain svgdx; if it is rejected the template is wrong (reported as an internal error)
+            raise RuntimeError("the hand-written twin is rejected: " + r.docs[1]["msg"][:200] + " :: " + d1[:300])
         if r.docs[0]["status"] != "ok":
             return [Obl("reuse-document-ok", FAIL, ground=True, note=r.docs[0]["msg"][:200])]
         o0, o1 = Out(r.docs[0]["output"]), Out(r.docs[1]["output"])
@@ -306,7 +311,33 @@ def build(td, wrong=False):
                 for g in o.by_tag("g"):
                     if g.get("transform") is None:
                         g.set("transform", "translate(0, 0)")
-        obls += compare_outputs(o0, o1, wrong=wrong)
+        if fam == "groupfixed":
+            # the instance's transform: the reuse element's own transform first, then the translation that puts the (origin-anchored)
+            # content box where the placement attributes say; a zero translation may be left out
+            from vlib.twin import split_numeric
+            g0, g1 = o0.by_id("i0"), o1.by_id("i0")
+            xf_, tr_ = gf_expect
+            got = g0.attrib.pop("transform", None) if g0 is not None else None
+            if g1 is not None:
+                g1.attrib.pop("transform", None)
+            if g0 is None:
+                obls.append(Obl("instance-present", FAIL, ground=True))
+            elif tr_ is None:
+                obls.append(Obl("instance-transform", PASS if (got or "translate(0, 0)") in (xf_ or "translate(0, 0)", (xf_ + " translate(0, 0)").strip()) else FAIL, ground=True, note=str(got)))
+            else:
+                skel, terms = split_numeric(o0, got or "translate(0, 0)")
+                want_skel = split_numeric(o0, (xf_ + " " if xf_ else "") + "translate(0, 0)")[0]
+                nx = len(terms) - 2
+                if skel != want_skel or nx < 0:
+                    # a translation by (0, 0) may be omitted altogether
+                    if (got or "") == xf_:
+                        obls.append(Obl("instance-translation-omitted-only-when-zero", not_(and_(eq(tr_[0], "0.0"), eq(tr_[1], "0.0")))))
+                    else:
+                        obls.append(Obl("instance-transform-form", FAIL, ground=True, note=f"{got!r} expected {want_skel!r}"))
+                else:
+                    obls.append(Obl("instance-translate-x", ne(terms[nx], plus(tr_[0], "1.0") if wrong else tr_[0])))
+                    obls.append(Obl("instance-translate-y", ne(terms[nx + 1], tr_[1])))
+        obls += compare_outputs(o0, o1, wrong=wrong and fam != "groupfixed", skip_root=(fam == "groupfixed"))
         # independence of instances (term DAG): instance i's numbers mention only its own variables
         if len(inst_vars) > 1 and not r.native:
             nz = Normalizer(r)
